@@ -3,6 +3,7 @@ import random
 
 from . import common as C
 from . import core
+from . import asmdiff as A
 from . import proggen as G
 
 
@@ -85,7 +86,22 @@ def run(tier, seed):
         stmts += [("label", "outer.after"), ("dw", ("sym", "outer.after", "outer.after"))]
         src += [".after:", "@dw outer.after"]
         cases.append({"arch": rng.choice(["6502", "z80", "sm83"]), "stmts": stmts, "src": "\n".join(src) + "\n", "note": "struct"})
+    # a field whose simple name is also an earlier global symbol; a duplicate field name; a struct
+    # before the first global label followed by a local name (no scope: rejected)
+    cases.append({"arch": "6502", "stmts": [("label", "length"), ("db", ("num", 7)), ("struct", "Rec", [("f", "length", ("num", 2)), ("f", "other", ("num", 3))]),
+                                              ("db", ("sym", "Rec.other", "Rec.other")), ("db", ("sym", "Rec", "Rec")), ("dw", ("sym", "length", "length"))],
+                  "src": "length:\n@db 7\n@struct Rec\n length 2\n other 3\n@endstruct\n@db Rec.other\n@db Rec\n@dw length\n", "note": "field-named-like-global"})
+    cases.append({"arch": "6502", "stmts": [("struct", "Dup", [("f", "fa", ("num", 1)), ("f", "fa", ("num", 2))])],
+                  "src": "@struct Dup\n fa 1\n fa 2\n@endstruct\n", "note": "duplicate-field"})
     res = core.run_cases(chk, cases, "s", key_fn=lambda c, bad: "struct:" + bad[:40])
+    noscope = C.run_impl([A.case_line("ns0", "6502", {"/m.asm": "@struct First\n fa 1\n second 2\n@endstruct\n@db .second\n"}),
+                          A.case_line("ns1", "6502", {"/m.asm": "@struct First\n fa 1\n@endstruct\n.fa:\n"})])
+    for cid in ("ns0", "ns1"):
+        im = A.parse_impl(noscope.get(cid))
+        chk.evaluations += 1
+        if im["kind"] != "ERR":
+            chk.violation("struct:scope-before-first-label", f"a struct before the first global label left its scope behind: a local name after it was accepted ({im['kind']} {im.get('bytes', '')})",
+                          {"arch": "6502", "case": cid})
     for r in res:
         chk.distinct.add(r["case"]["src"])
     chk.samples += [{"source": res[k]["case"]["src"], "impl": res[k]["impl"].get("bytes")} for k in (1, len(res) // 2)]
